@@ -16,16 +16,16 @@ def configs(tier):
     cfgs = []
     if tier == 'quick':
         sel = [('<f8', [], 0), ('>i2', [2], 0), ('<c8', [2], 2), ('|u1', [], 2),
-               ('>f4', [2, 1], 0), ('<u8', [], 2)]
+               ('>f4', [2, 3], 0), ('<u8', [], 2)]
         for dt, trail, n0 in sel:
             cfgs.append({'dtype': dt, 'trail': trail, 'start_len': n0, 'Lmax': 2,
                          'oracles': ['format'], 'features': FEATURES})
     else:
         for dt in payload.ALL_DTYPES:
-            for trail in ([], [2], [2, 1]):
+            for trail in ([], [2], [2, 3]):
                 cfgs.append({'dtype': dt, 'trail': trail, 'start_len': 0, 'Lmax': 2,
                              'oracles': ['format'], 'features': FEATURES})
-        for dt, trail in (('<f8', []), ('>i2', [2]), ('<c8', [2, 1]), ('|u1', [])):
+        for dt, trail in (('<f8', []), ('>i2', [2]), ('<c8', [2, 3]), ('|u1', [])):
             for n0 in (0, 2):
                 cfgs.append({'dtype': dt, 'trail': trail, 'start_len': n0, 'Lmax': 3,
                              'oracles': ['format'], 'features': FEATURES})
